@@ -46,9 +46,9 @@ Definition ops : list (string * (tree -> tree)) := [
   ("spec.chop_ok", fun t => ofB (chop_ok_b (tStr (tNth t 0)) (tZ (tNth t 1)) (tList tStr (tNth t 2))));
   ("spec.adjust_ok", fun t =>
       ofB (adjust_ok_b (tLine (tNth t 0)) (tZ (tNth t 1)) (tOpt tZ (tNth t 2)) (tB (tNth t 3)) (tLine (tNth t 4))));
-  ("spec.sac_ok", fun t =>  (* [segs, length, style, pad, out_lines] *)
-      ofB (shape_ok_b (tZ (tNth t 1)) (tOpt tZ (tNth t 2)) (tB (tNth t 3))
-             (split_lines (tLine (tNth t 0))) (tList tLine (tNth t 4))));
+  ("spec.sac_ok", fun t =>  (* [segs, length, style, pad, incl, out_lines] *)
+      ofB (shape_ok_b (tZ (tNth t 1)) (tOpt tZ (tNth t 2)) (tB (tNth t 3)) (tB (tNth t 4))
+             (split_lines (tLine (tNth t 0))) (tList tLine (tNth t 5))));
   ("spec.set_shape_ok", fun t =>  (* [lines, width, height?, style, out] *)
       let lines := tList tLine (tNth t 0) in
       let w := tZ (tNth t 1) in
@@ -56,6 +56,6 @@ Definition ops : list (string * (tree -> tree)) := [
       let n := length lines in
       let h := match tOpt tZ (tNth t 2) with None => n | Some h => Z.to_nat h end in
       ofB ((length out =? Nat.max n h)%nat
-           && shape_ok_b w (tOpt tZ (tNth t 3)) true lines (firstn n out)
+           && shape_ok_b w (tOpt tZ (tNth t 3)) true false lines (firstn n out)
            && forallb (fun l => adjust_ok_b [] w (tOpt tZ (tNth t 3)) true l) (skipn n out)))
 ].
